@@ -62,6 +62,9 @@ def judge_api(o):
         elif o.get("reinit_heartbeats", 0) < 2:
             # the handshake itself asks for the console version once; a heartbeat is a further request
             bad.append(("reinit-heartbeat", "no heartbeat request within 312 s after a later init() (version requests seen: %d, one belongs to the handshake)" % o.get("reinit_heartbeats", 0)))
+        if o.get("gen") == 4 and o.get("reinit_result") is True and o.get("reinit_view") == o.get("baseline_view") and o.get("reinit_group_requests", 0) < 2:
+            bad.append(("reinit-poll", "AirTouch 4: no group status request within 312 s of console silence after a later init() (group status requests seen: %d, one belongs to "
+                        "the handshake) - a fresh object polls after 300 s" % o.get("reinit_group_requests", 0)))
         if o.get("second_shutdown_raised"):
             bad.append(("reinit-shutdown", "the shutdown() after the later init() raised %s" % o["second_shutdown_raised"]))
         if o.get("tasks_alive_2") or o.get("timers_2") or o.get("open_conns_2"):
